@@ -150,7 +150,16 @@ def run(R):
         must = [p for p in allp if any(p[0] <= mk <= p[1] for mk in marks)]
         rest = [p for p in allp if p not in must]
         R.rng.shuffle(rest)
-        sel = must + rest[:28]
+        import math
+
+        def asin_c(v):
+            return math.asin(max(-1.0, min(1.0, v)))
+        # backward-error form: distance of the result to the nearer end of [asin(x-2) - 4, asin(x+2) + 4]
+        guided = R.tightest_pieces(
+            h, "asin", [p for p in allp if p[1] < ONE], lambda x: 65536 * (asin_c((x - 2) / 65536.0) + asin_c((x + 2) / 65536.0)) / 2,
+            lambda x: 4 + 65536 * (asin_c((x + 2) / 65536.0) - asin_c((x - 2) / 65536.0)) / 2, k=10)
+        sel = must + rest[:16]
+        sel += [p for p in guided if p not in sel]
         R.bounds.append("quick tier: %d of %d pieces of [0, 1] (branch points, both ends, a VERIF_SEED sample); thorough: every "
                         "raw x in [0, 65536]; negative half by the proved oddness" % (len(sel), len(allp)))
     else:
